@@ -179,13 +179,118 @@ def gen_builtin_case(rng):
     return common.case_json(q, {'A': A, 'B': None, 'a_names': None, 'b_names': None})
 
 
+# ---------------------------------------------------------------------------------------------------------------
+# typed front-ends: aggregates over the cells of a dataframe, a sqlite table and a CSV file (numeric strings there)
+
+def leg_typed_aggregates(ns, res, spec):
+    import io
+    import sqlite3
+    from fractions import Fraction
+    import pandas as pd
+    from ..model import refcsv
+    rng = random.Random(spec['seed'] * 49979693 + spec['i'])
+
+    class Sink(ns.engine.RBQLOutputWriter):
+        def __init__(self):
+            self.rows = []
+
+        def write(self, fields):
+            self.rows.append(list(fields))
+            return True
+
+    def close(g, e, scale=1.0):
+        try:
+            return abs(float(g) - float(e)) <= 1e-9 * max(1.0, abs(float(e)), scale)
+        except (TypeError, ValueError, OverflowError):
+            return False
+
+    for n in range(spec['n']):
+        front = ['pandas', 'sqlite', 'csv'][n % 3]
+        nrows = rng.choice([1, 2, 3, 5, 8, 17, 18, 33, 40])
+        keykind = rng.choice(['str', 'int'])
+        keys = [rng.choice(['a', 'b', 'ab', 'B']) if keykind == 'str' else rng.choice([1, 2, 10, 2 ** 53 + 1]) for _ in range(nrows)]
+        ipool = rng.choice([[1, 2, 3, 10, 7], [2 ** 53 + 1, 2 ** 53 + 3, 5, 2 ** 60], [0, -4, 9, 100]])
+        ints = [rng.choice(ipool) for _ in range(nrows)]
+        flts = [rng.choice([0.25, 0.5, 1.0, 2.75, -1.5, 10.0, 3.0]) for _ in range(nrows)]
+        rows = [[keys[i], ints[i], flts[i]] for i in range(nrows)]
+        where = rng.choice([None, None, 'a2 > 2', 'a3 < 2'])
+        if front == 'csv':
+            where = {'a2 > 2': 'int(a2) > 2', 'a3 < 2': 'float(a3) < 2'}.get(where)
+        passing = [r for r in rows if where is None or (r[1] > 2 if 'a2' in where else r[2] < 2)]
+        groups = {}
+        for r in passing:
+            groups.setdefault(r[0], []).append(r)
+        exp = []
+        for k in sorted(groups):
+            g = groups[k]
+            xs, fs = [r[1] for r in g], [Fraction(r[2]) for r in g]
+            mean = sum(fs) / len(fs)
+            sf = sorted(fs)
+            med = sf[len(sf) // 2] if len(sf) % 2 else (sf[len(sf) // 2 - 1] + sf[len(sf) // 2]) / 2
+            exp.append([k, len(g), min(xs), max(xs), sum(xs), float(mean), float(med), float(sum((x - mean) ** 2 for x in fs) / len(fs)), list(xs), xs])
+        qtext = 'select a1, COUNT(*), MIN(a2), MAX(a2), SUM(a2), AVG(a3), MEDIAN(a3), VARIANCE(a3), ARRAY_AGG(a2), ANY_VALUE(a2)%s group by a1' % (' where ' + where if where else '')
+        if front == 'pandas':
+            df = pd.DataFrame({'k': pd.Series(keys, dtype='object' if keykind == 'str' else 'int64'), 'n': pd.Series(ints, dtype='int64'), 'x': pd.Series(flts, dtype='float64')})
+            it = ns.pandas.DataframeIterator(df, normalize_column_names=True)
+            conn = None
+        elif front == 'sqlite':
+            conn = sqlite3.connect(':memory:')
+            conn.execute('CREATE TABLE t (k %s, n INTEGER, x REAL)' % ('TEXT' if keykind == 'str' else 'INTEGER'))
+            conn.executemany('INSERT INTO t VALUES (?, ?, ?)', rows)
+            conn.commit()
+            it = ns.sqlite.SqliteRecordIterator(conn, 't')
+        else:
+            conn = None
+            text = refcsv.write_table([[str(v) for v in r] for r in rows], ',', 'quoted', '\n')
+            it = ns.csv.CSVRecordIterator(io.StringIO(text, newline=''), None, ',', 'quoted')
+        sink = Sink()
+        err = None
+        try:
+            ns.rbql.query(qtext, it, sink, [])
+        except Exception as e:
+            err = '%s: %s' % (type(e).__name__, str(e)[:150])
+        if conn is not None:
+            conn.close()
+        res.evaluations += 1
+        res.count('typed_aggregate_runs:' + front)
+        res.count('typed_aggregate_groups', len(exp))
+        res.nontrivial('typed-agg', front, qtext, repr(rows))
+        cs = {'leg': 'typed-aggregates', 'front_end': front, 'query_text': qtext, 'rows': [[repr(v) for v in r] for r in rows]}
+        bad = None
+        if err is not None:
+            bad = err
+        elif len(sink.rows) != len(exp):
+            bad = '%d result records for %d groups: %r' % (len(sink.rows), len(exp), sink.rows[:4])
+        else:
+            if front == 'csv':
+                # keys are strings there: ascending order of the key TEXT
+                exp_sorted = sorted(exp, key=lambda e: str(e[0]))
+            else:
+                exp_sorted = exp
+            for g, e in zip(sink.rows, exp_sorted):
+                key_ok = (str(g[0]) == str(e[0])) if front == 'csv' else (g[0] == e[0] and type(g[0]) is type(e[0]))
+                exact_ok = all(int(g[j]) == e[j] and not isinstance(g[j], float) for j in (1, 2, 3, 4))
+                float_ok = close(g[5], e[5]) and close(g[6], e[6]) and close(g[7], e[7], scale=max(abs(x) for x in flts) ** 2)
+                arr = [int(v) for v in g[8]] if isinstance(g[8], list) else None
+                any_ok = int(g[9]) in e[9]
+                if not (key_ok and exact_ok and float_ok and arr == e[8] and any_ok):
+                    bad = 'group %r -> %r ; expected %r' % (e[0], g, e[:9] + ['one of %r' % e[9]])
+                    break
+        if bad is not None:
+            res.violation('py:typed-aggregate-result-differs:' + front, '[py/%s] %s over %r: %s' % (front, qtext, rows, bad), cs)
+        if n % 97 == 0:
+            res.sample({'leg': 'typed-aggregates', 'front_end': front, 'query': qtext, 'rows': [[repr(v) for v in r] for r in rows][:4], 'expected_groups': len(exp)})
+
+
 def plan(tier, seed):
     k = NSHARDS[tier]
-    return [{'k': k, 'i': i, 'n': CASES[tier] // k} for i in range(k)]
+    return [{'k': k, 'i': i, 'n': CASES[tier] // k} for i in range(k)] + [{'kind': 'typed-aggregates', 'i': i, 'n': 240 if tier == 'quick' else 3000} for i in range(2 if tier == 'quick' else 6)]
 
 
 def run_shard(spec, res):
     ns = env.import_rbql()
+    if spec.get('kind') == 'typed-aggregates':
+        return leg_typed_aggregates(ns, res, spec)
     rng = random.Random(spec['seed'] * 15485863 + spec['i'])
     js = common.JsLeg(res, PROPERTY, classify_js)
     try:
@@ -217,8 +322,8 @@ def run_shard(spec, res):
 def summarize(tier, seed, m):
     aggs = {k[4:]: v for k, v in m['counters'].items() if k.startswith('agg:')}
     return {
-        'rule': 'aggregate queries with 1-5 aggregates out of COUNT(*|1|x), MIN, MAX, SUM, AVG, VARIANCE, MEDIAN, ARRAY_AGG, ANY_VALUE in upper / lower / capitalised spellings (expression arguments in the Python leg), group keys and constants as plain columns, no GROUP BY / one key / two keys / NR %% k / len(key), optional WHERE and TOP/LIMIT, over tables of 0-40 rows with int, float, mixed int->float, zero-heavy and negative numeric strings, native int / float cells, and integers beyond 2**53 (Python leg only); one case in 16 exercises builtin min/max/sum dispatch in a non-aggregate query; a non-constant plain column is injected in 6%% of the cases and must be rejected with the record number. distinct_nontrivial = distinct (query, table) with at least one result row.',
-        'required': ['py_aggregate_cases', 'py_builtin_dispatch_cases', 'groups_checked', 'predicted_errors', 'js_cases'],
+        'rule': 'aggregate queries with 1-5 aggregates out of COUNT(*|1|x), MIN, MAX, SUM, AVG, VARIANCE, MEDIAN, ARRAY_AGG, ANY_VALUE in upper / lower / capitalised spellings (expression arguments in the Python leg), group keys and constants as plain columns, no GROUP BY / one key / two keys / NR %% k / len(key), optional WHERE and TOP/LIMIT, over tables of 0-40 rows with int, float, mixed int->float, zero-heavy and negative numeric strings, native int / float cells, and integers beyond 2**53 (Python leg only); one case in 16 exercises builtin min/max/sum dispatch in a non-aggregate query; a non-constant plain column is injected in 6%% of the cases and must be rejected with the record number. a typed front-ends leg: one query with all nine aggregates grouped by a string or integer key (optionally filtered) over 1-40 records delivered by a dataframe (int64 / float64 / object), a sqlite table (INTEGER / REAL / TEXT) and a CSV reader (numeric strings), integers up to 2**60 (sums and extrema must stay exact integers), floats in quarters (exact rational reference), groups in ascending key order; distinct_nontrivial = distinct (query, table) with at least one result row.',
+        'required': ['typed_aggregate_runs:pandas', 'typed_aggregate_runs:sqlite', 'typed_aggregate_runs:csv', 'typed_aggregate_groups', 'py_aggregate_cases', 'py_builtin_dispatch_cases', 'groups_checked', 'predicted_errors', 'js_cases'],
         'extra': {'aggregate_spellings_seen': aggs},
         'assumptions': ['numeric tolerance 1e-9 relative for the results every implementation computes in floating point (AVG, VARIANCE, the mean of the two middle values of MEDIAN, SUM / MIN / MAX over floats); the scale is max(1, |result|, largest |operand|) - for VARIANCE the largest squared operand - because that is what bounds a floating-point sum; integer MIN / MAX / SUM / MEDIAN (odd count) / COUNT are compared exactly, also beyond 2**53 (Python leg)', 'plain columns are never None (the engine uses None as its unset sentinel; the quantifier is over numeric columns)'],
     }
